@@ -222,7 +222,17 @@ impl IncRun {
                 let allow = amt("allow");
                 // what is handed over with the message: a cw20 allowance, or coins of the native LP denom
                 let funds: Vec<Coin> = match self.lp_asset.clone() {
-                    A::Cw20(t) => { self.w.set_allowance(&u, &t, &inc, allow); vec![] }
+                    A::Cw20(t) => {
+                        self.w.set_allowance(&u, &t, &inc, allow);
+                        // a receiver other than the caller may have a standing allowance of its own: it must stay untouched
+                        if recv != USERS[ui] {
+                            if let Some(x) = args["recv_allow"].as_str().and_then(|x| x.parse::<u128>().ok()) {
+                                let rv = self.users[USERS.iter().position(|y| *y == recv).unwrap()].clone();
+                                self.w.set_allowance(&rv, &t, &inc, x);
+                            }
+                        }
+                        vec![]
+                    }
                     A::Native(d) => if allow > 0 { vec![coin(allow, d)] } else { vec![] },
                 };
                 let dur: u64 = args["dur"].as_str().unwrap().parse().unwrap();
@@ -303,10 +313,33 @@ pub fn run_random(rec: &mut Rec, seed: u64, run: u64, nops: usize) {
     let scale = *gen::pick(&mut r, &[1_000u128, 1_000_000_000, 1u128 << 64, 1u128 << 100]);
     // every fourth run is a "claim campaign": two stakers, two flows of one asset (the second back-dated and short),
     // then epoch after epoch with both stakers claiming, so that flows are claimed through to their end
+    // every eighth run instead follows a flow dated a few epochs ahead: it is expanded in several epochs before it starts,
+    // runs, is claimed from and finally closed by its creator
+    let future_campaign = run % 8 == 5;
     let campaign = run % 4 == 3;
     let camp_asset = *gen::pick(&mut r, &["uusdc", "rwd2"]);
     let camp_dur = DURS[0];
     for step in 0..nops {
+        if future_campaign {
+            let fee: u128 = 1000;
+            let fa = p.fee_asset.clone();
+            let flow_funds = |asset: &str, a: u128| -> Value { if asset == fa { json!([{"d": asset, "amt": s(a)}]) } else { json!([{"d": fa, "amt": s(fee)}, {"d": asset, "amt": s(a)}]) } };
+            let a0 = 10_000u128 + r.gen_range(0..5_000u128);
+            let id = p.flows().iter().map(|f| f.flow_id).max().unwrap_or(0);
+            match step {
+                0 => { let a = 1000 + r.gen_range(0..1000u128); p.step(rec, run, step, "open", 0, json!({"amt": s(a), "allow": s(a), "dur": camp_dur.to_string(), "recv": USERS[0]})); continue; }
+                1 => { p.step(rec, run, step, "openflow", 2, json!({"asset": camp_asset, "amt": s(a0), "funds": flow_funds(camp_asset, a0), "len": 12, "start": 100 + r.gen_range(2..6u64)})); continue; }
+                2 | 4 | 6 if id > 0 => { let x = 1000 + r.gen_range(0..4000u128);
+                    p.step(rec, run, step, "expandflow", 1, json!({"asset": camp_asset, "amt": s(x), "id": id, "ext": 0, "funds": [{"d": camp_asset, "amt": s(x)}]})); continue; }
+                3 | 5 | 7 => { p.step(rec, run, step, "newepoch", 0, json!({})); continue; }
+                8..=30 if r.gen_range(0..10) < 8 => {
+                    match (step - 8) % 3 { 0 => p.step(rec, run, step, "newepoch", 0, json!({})), 1 => p.step(rec, run, step, "snapshot", 2, json!({})), _ => p.step(rec, run, step, "claim", 0, json!({})) };
+                    continue;
+                }
+                31 if id > 0 => { p.step(rec, run, step, "closeflow", 2, json!({"id": id, "by": "creator"})); continue; }
+                _ => {}
+            }
+        }
         if campaign && step < nops {
             let fee: u128 = 1000;
             let fa = p.fee_asset.clone();
@@ -343,7 +376,8 @@ pub fn run_random(rec: &mut Rec, seed: u64, run: u64, nops: usize) {
                 let allow = match r.gen_range(0..8) { 0 => a - 1, 1 => 0, 2 => a + 1, _ => a };
                 let recv = if r.gen_bool(0.25) { USERS[r.gen_range(0..3usize)] } else { USERS[ui] };
                 let op = if r.gen_bool(0.5) { "open" } else { "expand" };
-                p.step(rec, run, step, op, ui, json!({"amt": s(a), "allow": s(allow), "dur": dur.to_string(), "recv": recv}))
+                let recv_allow = if r.gen_bool(0.5) { s(a.saturating_mul(2)) } else { json!("none") };
+                p.step(rec, run, step, op, ui, json!({"amt": s(a), "allow": s(allow), "dur": dur.to_string(), "recv": recv, "recv_allow": recv_allow}))
             }
             18..=27 => p.step(rec, run, step, "close", ui, json!({"dur": dur.to_string()})),
             28..=35 => p.step(rec, run, step, "withdraw", ui, json!({})),
